@@ -5,6 +5,8 @@
 mod util;
 mod c17;
 mod c08;
+mod c02;
+mod gen;
 mod dicts;
 mod texts;
 mod tok;
@@ -21,6 +23,8 @@ fn main() {
         "c17-record" => c17::record(rest),
         "c08-replay" => c08::replay(rest),
         "tok-record" => tok::record(rest),
+        "c02-replay" => c02::replay(rest),
+        "c02-record" => c02::record(rest),
         other => {
             eprintln!("unknown subcommand {}", other);
             2
